@@ -187,6 +187,34 @@ func (la *lockAnalysis) localNeeds(fn *ssa.Function) []lockNeed {
 						continue
 					}
 					for _, a := range la.w.classifyAddrUses(fn, x, x.X) {
+						if a.Via != nil {
+							// made by a function the field was handed to: the locks held are those at the call
+							viaNeed := func(mode int, what string) {
+								n := lockNeed{Mode: mode, Held: held[a.Via], What: what, Instr: a.Via, Fn: fn, Key: fnName(fn) + "|" + what}
+								la.NObl++
+								if fresh[x.X] {
+									return
+								}
+								if n.Held >= mode {
+									la.Covered = append(la.Covered, n)
+									return
+								}
+								out = append(out, n)
+							}
+							switch a.Kind {
+							case "write":
+								viaNeed(lkW, "write "+f+" (in "+shortFn(a.Fn)+")")
+							case "mapwrite":
+								viaNeed(lkW, "map update "+f+" (in "+shortFn(a.Fn)+")")
+							case "mapdelete":
+								viaNeed(lkW, "map delete "+f+" (in "+shortFn(a.Fn)+")")
+							case "read", "mapread", "range":
+								viaNeed(rmode, a.Kind+" "+f+" (in "+shortFn(a.Fn)+")")
+							case "addr", "addrcall":
+								viaNeed(lkW, "address of "+f+" escapes (in "+shortFn(a.Fn)+")")
+							}
+							continue
+						}
 						switch a.Kind {
 						case "write":
 							add(a.Instr, lkW, "write "+f, x.X)
